@@ -7,6 +7,7 @@ import "math"
 
 func init() {
 	vRegister("zzC01Substeps", func(a []int) { zzC01Substeps(a[0], a[1]) })
+	vRegister("zzC01ConstantGWDay", func(a []int) { zzC01ConstantGWDay(a[0], a[1]) })
 }
 
 // bit != 0: obligations meant for the bit-precise (IEEE double / int64) encoding
@@ -50,4 +51,45 @@ func zzC01Substeps(n, bit int) {
 	if ZSR > 8 {
 		vCover("C01.substeps.cover_extreme_rain_refinement")
 	}
+}
+
+// C01: on a day on which the groundwater level does not change, the groundwater part of the day loop (from
+// reading the level to the automatic-irrigation block, lifted verbatim) neither changes the water stored in
+// any layer nor the hydraulic parameters: the hand-over of the water state between days creates no water.
+// src 0: level from the soil file (constant); 1: sinusoid with zero amplitude
+func zzC01ConstantGWDay(n, src int) {
+	g := NewGlobalVarsMain()
+	g.N = n
+	g.DZ = NewDualType(10, 0)
+	g.TAG = NewDualType(100, 1)
+	g.PTF = 0
+	g.CAPPAR = 1
+	g.GRW = vFloat("grw")
+	vAssume(g.GRW >= 1 && g.GRW <= 30)
+	if src == 0 {
+		g.GROUNDWATERFROM = Soilfile
+	} else {
+		g.GROUNDWATERFROM = Polygonfile
+		g.GW = g.GRW
+		g.AMPL = 0
+		g.GWPhase = 80
+	}
+	var w0, wg0, wg1 [4]float64
+	for i := 0; i < n; i++ {
+		g.W[i], g.WMIN[i], g.PORGES[i], g.WNOR[i] = vFloat("w", i), vFloat("wmin", i), vFloat("p", i), vFloat("wnor", i)
+		g.WG[0][i], g.WG[1][i] = vFloat("wg0", i), vFloat("wg1", i)
+		w0[i], wg0[i], wg1[i] = g.W[i], g.WG[0][i], g.WG[1][i]
+	}
+	var inp InputSharedVars
+	var hp HFilePath
+	ZEIT := vInt("zeit")
+	vAssume(ZEIT > 100 && ZEIT < 70000)
+	_, ctl := zzR_GWDay(&g, &inp, &hp, ZEIT)
+	vCover("C01.gwday.reach")
+	vAssert("C01.gwday.falls_through", ctl == 0)
+	for i := 0; i < n; i++ {
+		vAssert("C01.gwday.water_state_untouched_when_level_constant", g.WG[0][i] == wg0[i] && g.WG[1][i] == wg1[i])
+		vAssert("C01.gwday.field_capacity_untouched_when_level_constant", g.W[i] == w0[i])
+	}
+	vObserve("wg1", g.WG[1][0])
 }
